@@ -77,7 +77,7 @@ def make_case(case, seed, thorough):
         cl = {"pattern": "matrix", "nrec": len(spec.app)}
     else:
         mx = suites.matrix()
-        v, code, name, p = mx[rng.randrange(len(mx))]
+        v, code, name, p = suites.pick(rng)
         if case["kind"] == "long":
             spec, cl = tlssynth.random_spec(rng, v, code, nmax=20, big=False)
             n = rng.randrange(300, 3000 if thorough else 900)
